@@ -8,7 +8,7 @@ mkdir -p /tmp/eval/verif
 [ -d /tmp/eval/repo ] || git -C /repo worktree add --detach /tmp/eval/repo HEAD >/dev/null 2>&1
 head=$(git -C /repo rev-parse HEAD)
 git -C /tmp/eval/repo checkout -q -- . && git -C /tmp/eval/repo checkout -q --detach $head || exit 2
-rsync -a --delete --exclude harness/target --exclude cache --exclude .git --exclude replays --exclude evidence /verif/ /tmp/eval/verif/
+rsync -a --delete --exclude harness/target --exclude fuzz/target --exclude fuzz/artifacts --exclude cache --exclude .git --exclude replays --exclude evidence /verif/ /tmp/eval/verif/
 mkdir -p /tmp/eval/verif/evidence /tmp/eval/verif/replays
 ln -sfn /verif/cache /tmp/eval/verif/cache
 sed -i 's#krill = { path = "/repo" }#krill = { path = "/tmp/eval/repo" }#' /tmp/eval/verif/harness/Cargo.toml
